@@ -131,7 +131,7 @@ func mainRuntime() []byte {
 	// selector = calldataload(0) >> 248
 	a.push(0).op(opCALLDATALOAD).push(248).op(opSHR)
 	sels := []string{"receive", "store", "load", "forward", "revertdata", "invalid", "loop", "destruct", "create", "callmayberevert",
-		"trycall", "balances", "static", "delegate", "ecrecover", "create2", "clear", "destructself", "multicall"}
+		"trycall", "balances", "static", "delegate", "ecrecover", "create2", "clear", "destructself", "multicall", "rawcall"}
 	for i, s := range sels {
 		a.op(opDUP1).push(uint64(i)).op(opEQ).pushLabel(s).op(opJUMPI)
 	}
@@ -301,6 +301,19 @@ func mainRuntime() []byte {
 	argB()
 	a.push(100000).op(opCALL).op(opPOP)
 	a.op(opSTOP)
+
+	// rawcall: CALL(100000, A, CALLVALUE, calldata[65 : 65+B]) and return its output (A may be a precompile, B any length)
+	a.label("rawcall")
+	argB()
+	a.push(65).push(0).op(opCALLDATACP) // calldatacopy(dest 0, off 65, size B)
+	a.push(0).push(0)
+	argB()
+	a.push(0).op(opCALLVALUE)
+	argA()
+	a.push(100000).op(opCALL)
+	a.push(11).op(opSSTORE)
+	a.op(opRETURNDATASIZE).push(0).push(0).op(opRETURNDATACP)
+	a.op(opRETURNDATASIZE).push(0).op(opRETURN)
 	return a.bytes()
 }
 
@@ -406,6 +419,15 @@ func (g *Gen) draftEVM(kind string, h int64, sh *MState, P *DParams, price *big.
 		to := addrBytes(pool[g.rng.Intn(len(pool))])
 		d := mk(rctypes.TRX_TRANSFER, k, to, val(), nil, "transfer-to-contract")
 		d.tx.Gas = gasBudget
+		if g.rng.Intn(5) == 0 {
+			// admitted by the fee rule but below what the EVM needs for a plain call
+			lo := P.MinTrxGas
+			if lo < 21000 {
+				d.tx.Gas = lo + uint64(g.rng.Intn(int(21000-lo)))
+				d.ok = false
+				d.label = "invalid:evm-below-intrinsic-gas(transfer-to-contract)"
+			}
+		}
 		return d
 	case "call":
 		if len(g.Contracts) == 0 {
@@ -457,6 +479,14 @@ func (g *Gen) draftEVM(kind string, h int64, sh *MState, P *DParams, price *big.
 			d = append(d, wordU(uint64(s1)|uint64(s2)<<8)...)
 			return cs{name, d, v, false}
 		}
+		pre := make([]byte, 20)
+		pre[19] = byte(1 + g.rng.Intn(9))
+		rawIn := make([]byte, []int{0, 1, 31, 32, 64, 96, 127, 128, 200}[g.rng.Intn(9)])
+		g.rng.Read(rawIn)
+		cands = append(cands,
+			cs{"rawcall-precompile", append(callData(19, pre, wordU(uint64(len(rawIn))), nil)[:65], rawIn...), new(big.Int), false},
+			cs{"rawcall-contract", append(callData(19, anyTarget(), wordU(uint64(len(rawIn))), nil)[:65], rawIn...), val(), false},
+		)
 		cands = append(cands,
 			mc("multicall-fail-then-pay-same", x, 5, x, 0, nil, val()),
 			mc("multicall-revert-then-pay-same", x, 4, x, 0, wordU(7), val()),
